@@ -8,6 +8,7 @@ import (
 	"slices"
 	"strings"
 	"sync"
+	"sync/atomic"
 	"time"
 
 	"github.com/gordian-engine/gordian/gexchange"
@@ -42,6 +43,14 @@ type Connection struct {
 
 	setConsensusHandlerRequests chan setConsensusHandlerRequest
 
+	// The consensus handler currently consulted by the topic validator.
+	// The validator itself is registered once, before the topic is joined,
+	// and never replaced: swapping validators on the pubsub value
+	// would leave a window without any validator,
+	// in which pubsub accepts and relays everything.
+	// A stored nil handler (or nothing stored yet) means incoming messages are ignored.
+	consensusHandler atomic.Pointer[tmconsensus.ConsensusHandler]
+
 	wg sync.WaitGroup
 
 	disconnectOnce sync.Once
@@ -51,6 +60,19 @@ type Connection struct {
 // NewConnection returns a new Connection based on
 // a host that has already joined a network.
 func NewConnection(ctx context.Context, log *slog.Logger, h *Host, codec tmcodec.MarshalCodec) (*Connection, error) {
+	c := &Connection{
+		log: log,
+
+		codec: codec,
+
+		h: h,
+	}
+
+	// The validator must be in place before we can receive anything on the topic.
+	if err := h.PubSub().RegisterTopicValidator(topicConsensus, c.validateConsensusMessage); err != nil {
+		return nil, fmt.Errorf("failed to register consensus topic validator: %w", err)
+	}
+
 	consensusTopic, err := h.PubSub().Join(topicConsensus)
 	if err != nil {
 		return nil, err
@@ -71,26 +93,19 @@ func NewConnection(ctx context.Context, log *slog.Logger, h *Host, codec tmcodec
 		return nil, fmt.Errorf("failed to create DHT peer: %w", err)
 	}
 
-	c := &Connection{
-		log: log,
+	c.dhtPeer = dhtPeer
 
-		codec: codec,
+	c.consensusTopic = consensusTopic
+	c.consensusSub = consensusSub
 
-		h:       h,
-		dhtPeer: dhtPeer,
+	c.outgoingProposals = make(chan tmconsensus.ProposedHeader, 1)
 
-		consensusTopic: consensusTopic,
-		consensusSub:   consensusSub,
+	c.outgoingPrevoteProofs = make(chan tmconsensus.PrevoteSparseProof, 1)
+	c.outgoingPrecommitProofs = make(chan tmconsensus.PrecommitSparseProof, 1)
 
-		outgoingProposals: make(chan tmconsensus.ProposedHeader, 1),
+	c.setConsensusHandlerRequests = make(chan setConsensusHandlerRequest, 1)
 
-		outgoingPrevoteProofs:   make(chan tmconsensus.PrevoteSparseProof, 1),
-		outgoingPrecommitProofs: make(chan tmconsensus.PrecommitSparseProof, 1),
-
-		setConsensusHandlerRequests: make(chan setConsensusHandlerRequest, 1),
-
-		disconnected: make(chan struct{}),
-	}
+	c.disconnected = make(chan struct{})
 
 	// Ensure that the subscriptions are ready,
 	// as their setup happens in the background.
@@ -105,10 +120,6 @@ func NewConnection(ctx context.Context, log *slog.Logger, h *Host, codec tmcodec
 
 func (c *Connection) background(ctx context.Context) {
 	defer c.wg.Done()
-
-	if err := c.h.PubSub().RegisterTopicValidator(topicConsensus, ignoreMessage); err != nil {
-		c.log.Warn("Failed to initialize consensus topic validator", "err", err)
-	}
 
 	for {
 		select {
@@ -175,86 +186,63 @@ func (c *Connection) background(ctx context.Context) {
 			}
 
 		case req := <-c.setConsensusHandlerRequests:
-			// There is always a topic validator, so unregister the previous one.
-			if err := c.h.PubSub().UnregisterTopicValidator(topicConsensus); err != nil {
-				c.log.Warn("Failed to unregister previous topic validator for consensus messages", "err", err)
-			}
-
-			// NOTE: there is a potential race right here,
-			// where we temporarily have no topic validator set,
-			// between removing and replacing it.
-			//
-			// Unfortunately it doesn't look like there is a way to atomically swap the validator,
-			// nor is there an obvious way to leave the topic and
-			// instantaneously join it while setting a validator.
-			//
-			// Perhaps the alternative is to have a fixed method as the topic validator,
-			// and use sync/atomic to swap the handler.
-
-			// Always reassign a topic validator.
-			if req.Handler == nil {
-				if err := c.h.PubSub().RegisterTopicValidator(topicConsensus, ignoreMessage); err != nil {
-					c.log.Warn("Failed to register consensus topic validator when clearing handler", "err", err)
-				}
-			} else {
-				if err := c.h.PubSub().RegisterTopicValidator(
-					topicConsensus,
-					c.libp2pConsensusMessageValidator(req.Handler),
-				); err != nil {
-					c.log.Warn("Failed to register topic validator for consensus messages", "err", err)
-				}
-			}
+			// The topic validator stays registered; it picks up the new handler atomically,
+			// so there is never a moment without a validator
+			// and never a message judged by neither the old nor the new handler.
+			h := req.Handler
+			c.consensusHandler.Store(&h)
 
 			close(req.Ready)
 		}
 	}
 }
 
-// ignoreMessage is a pubsub validator that ignores all incoming messages.
-// This is useful as a default strategy before (*Connection).SetConsensusHandler is called.
-func ignoreMessage(context.Context, peer.ID, *pubsub.Message) pubsub.ValidationResult {
-	return pubsub.ValidationIgnore
-}
-
-// libp2pConsensusMessageValidator returns a pubsub validator for the consensus message topic.
+// validateConsensusMessage is the pubsub validator for the consensus message topic.
 //
-// This callback is run on every new pubsub message,
-// so it needs to be associated with a consensus engine in order to act on the message
+// This callback is run on every new pubsub message.
+// It consults the consensus handler that is currently set
+// in order to act on the message
 // and return the decision of whether the message should continue to propagate
 // through the p2p network.
-func (c *Connection) libp2pConsensusMessageValidator(
-	h tmconsensus.ConsensusHandler,
-) pubsub.ValidatorEx {
-	selfID := c.h.Libp2pHost().ID()
-	return func(ctx context.Context, id peer.ID, msg *pubsub.Message) pubsub.ValidationResult {
-		if id == selfID {
-			// Don't process a message we sent,
-			// as our local state must have already been consistent with this message
-			// before we sent it.
-			return pubsub.ValidationAccept
-		}
-
-		var cm tmcodec.ConsensusMessage
-		if err := c.codec.UnmarshalConsensusMessage(msg.Data, &cm); err != nil {
-			c.log.Info("Failed to unmarshal data into consensus message", "err", err)
-			return pubsub.ValidationIgnore
-		}
-
-		var f gexchange.Feedback
-		switch {
-		case cm.ProposedHeader != nil && h != nil:
-			f = h.HandleProposedHeader(ctx, *cm.ProposedHeader)
-		case cm.PrevoteProof != nil && h != nil:
-			f = h.HandlePrevoteProofs(ctx, *cm.PrevoteProof)
-		case cm.PrecommitProof != nil && h != nil:
-			f = h.HandlePrecommitProofs(ctx, *cm.PrecommitProof)
-		default:
-			// Undefined behavior if no field was set,
-			// so in this case reject it.
-			f = gexchange.FeedbackRejected
-		}
-		return c.exchangeFeedbackToLibp2p(f)
+// While no handler is set, every incoming message is ignored.
+func (c *Connection) validateConsensusMessage(
+	ctx context.Context, id peer.ID, msg *pubsub.Message,
+) pubsub.ValidationResult {
+	var h tmconsensus.ConsensusHandler
+	if hp := c.consensusHandler.Load(); hp != nil {
+		h = *hp
 	}
+	if h == nil {
+		return pubsub.ValidationIgnore
+	}
+
+	if id == c.h.Libp2pHost().ID() {
+		// Don't process a message we sent,
+		// as our local state must have already been consistent with this message
+		// before we sent it.
+		return pubsub.ValidationAccept
+	}
+
+	var cm tmcodec.ConsensusMessage
+	if err := c.codec.UnmarshalConsensusMessage(msg.Data, &cm); err != nil {
+		c.log.Info("Failed to unmarshal data into consensus message", "err", err)
+		return pubsub.ValidationIgnore
+	}
+
+	var f gexchange.Feedback
+	switch {
+	case cm.ProposedHeader != nil:
+		f = h.HandleProposedHeader(ctx, *cm.ProposedHeader)
+	case cm.PrevoteProof != nil:
+		f = h.HandlePrevoteProofs(ctx, *cm.PrevoteProof)
+	case cm.PrecommitProof != nil:
+		f = h.HandlePrecommitProofs(ctx, *cm.PrecommitProof)
+	default:
+		// Undefined behavior if no field was set,
+		// so in this case reject it.
+		f = gexchange.FeedbackRejected
+	}
+	return c.exchangeFeedbackToLibp2p(f)
 }
 
 func (c *Connection) exchangeFeedbackToLibp2p(f gexchange.Feedback) pubsub.ValidationResult {
